@@ -1,6 +1,7 @@
 package main
 
 import (
+	"fmt"
 	"strings"
 	"verifharness/docs"
 	"verifharness/gen"
@@ -501,5 +502,46 @@ func c15(r *mon.Run) {
 			}
 			t.Nontrivial("huge:" + A + "|" + B)
 		}}
-	r.Exec(law1, law2, shaped, dead, behind, akPipe, hugew)
+	// law 1 with long chains on both sides: A and B are themselves chains of 1...64 piped stages (or dotted steps): the
+	// pipe of two chains takes no longer than the two chains (the stall alarm is the monitor for time)
+	stages := []int{1, 2, 8, 16, 20, 24, 32, 48, 64}
+	lpw := mon.Workload{Name: "long-pipe-chains", N: len(stages) * len(stages) * 3, Batch: 4,
+		Do: func(i int, t *mon.Tally) {
+			na, nb := stages[i/3%len(stages)], stages[i/3/len(stages)]
+			mk := func(n, kind int) string {
+				parts := make([]string, n)
+				for k := range parts {
+					parts[k] = []string{"@", "k", "[0]"}[kind]
+				}
+				sep := " | "
+				if kind == 1 && i%2 == 1 {
+					sep = "."
+				}
+				return strings.Join(parts, sep)
+			}
+			kind := i % 3
+			var doc interface{} = float64(1)
+			for k := 0; k < 140; k++ {
+				switch kind {
+				case 1:
+					doc = map[string]interface{}{"k": doc}
+				case 2:
+					doc = []interface{}{doc}
+				}
+			}
+			A, B := mk(na, kind), mk(nb, kind)
+			t.Eval()
+			ow := via(i, A+" | "+B, doc)
+			oa := via(i/2, A, doc)
+			ob := oa
+			if !oa.Panicked && oa.Err == nil {
+				ob = via(i, B, oa.V)
+			}
+			if ow.Panicked || ob.Panicked || !sameOutcome(ow, ob) {
+				r.Violate(&mon.Violation{Workload: "long-pipe-chains", Index: i, API: "Search", Expr: clipStr(A+" | "+B, 300), Expected: "Search(B, Search(A, d)) = " + clipStr(ob.String(), 200), Observed: "Search('A | B', d) = " + clipStr(ow.String(), 200), Class: "pipe law (long chains)"})
+				return
+			}
+			t.Nontrivial(fmt.Sprint("lp:", i))
+		}}
+	r.Exec(law1, law2, shaped, dead, behind, akPipe, hugew, lpw)
 }
